@@ -63,7 +63,7 @@ def clifford_ops(draw, n, max_len=60, allow_macros=True):
     while len(ops) < length:
         kind = draw(st.integers(0, 9))
         if allow_macros and kind == 9:
-            m = draw(st.sampled_from(["hh", "cxcx", "swapchain", "ssss", "ident"]))
+            m = draw(st.sampled_from(["hh", "cxcx", "swapchain", "ssss", "ident", "swap3cx"]))
             if m == "hh":
                 q = draw(st.integers(0, n - 1)); ops += [["h", [q]], ["h", [q]]]
             elif m == "ssss":
@@ -74,6 +74,8 @@ def clifford_ops(draw, n, max_len=60, allow_macros=True):
                 a = draw(st.integers(0, n - 1)); b = draw(st.integers(0, n - 2)); b = b if b < a else b + 1
                 if m == "cxcx":
                     ops += [["cx", [a, b]], ["cx", [a, b]]]
+                elif m == "swap3cx":      # a SWAP written in the CX basis, as routing / transpilation produces it
+                    ops += [["cx", [a, b]], ["cx", [b, a]], ["cx", [a, b]]]
                 else:
                     ops += [["swap", [a, b]], ["swap", [b, a]]]
         elif n >= 2 and kind < p2:
